@@ -232,6 +232,28 @@ fn app_despawn_system(mut q: ResMut<DespawnQueue>, mut cmd: Commands) {
     }
 }
 
+/// keeps index-id assets alive
+#[derive(Resource, Default)]
+pub struct KeepHandles(pub Vec<UntypedHandle>);
+
+#[derive(Clone, Copy, Debug, PartialEq, Eq)]
+pub enum AKind {
+    Mesh,
+    Image,
+    Audio,
+    Material,
+}
+impl AKind {
+    pub fn name(self) -> &'static str {
+        match self {
+            AKind::Mesh => "mesh",
+            AKind::Image => "image",
+            AKind::Audio => "audio",
+            AKind::Material => "material",
+        }
+    }
+}
+
 #[derive(Resource, Default)]
 pub struct SyncFinishedCount(pub u32);
 fn count_sync_finished(mut ev: EventReader<InitialSyncFinished>, mut c: ResMut<SyncFinishedCount>) {
@@ -272,6 +294,7 @@ pub fn make_app(cfg: &PeerCfg) -> App {
     app.add_plugins(SyncPlugin);
     app.init_resource::<DespawnQueue>();
     app.init_resource::<SyncFinishedCount>();
+    app.init_resource::<KeepHandles>();
     app.add_systems(Update, app_despawn_system);
     app.add_systems(Last, count_sync_finished);
     app.register_type::<CompU>();
@@ -594,6 +617,71 @@ impl Session {
         true
     }
 
+    /// publish (or overwrite) an asset: under a uuid id, or under a fresh index id when `uuid` is None
+    pub fn asset_insert(&mut self, peer: u32, kind: AKind, uuid: Option<Uuid>, n: u64) {
+        use bevy::render::{
+            render_asset::RenderAssetUsages,
+            render_resource::{Extent3d, PrimitiveTopology, TextureDimension, TextureFormat},
+        };
+        let w = self.peers[peer as usize].app.world_mut();
+        match kind {
+            AKind::Mesh => {
+                let mut mesh = Mesh::new(PrimitiveTopology::TriangleList, RenderAssetUsages::MAIN_WORLD | RenderAssetUsages::RENDER_WORLD);
+                let k = (n % 5 + 1) as usize;
+                mesh.insert_attribute(Mesh::ATTRIBUTE_POSITION, (0..k).map(|i| [n as f32, i as f32, 1.0]).collect::<Vec<[f32; 3]>>());
+                let mut a = w.resource_mut::<Assets<Mesh>>();
+                match uuid {
+                    Some(u) => a.insert(AssetId::Uuid { uuid: u }, mesh),
+                    None => {
+                        let h = a.add(mesh).untyped();
+                        w.resource_mut::<KeepHandles>().0.push(h);
+                    }
+                }
+            }
+            AKind::Image => {
+                let wd = (n % 7 + 1) as u32;
+                let img = Image::new(
+                    Extent3d { width: wd, height: 1, depth_or_array_layers: 1 },
+                    TextureDimension::D2,
+                    (0..wd * 4).map(|i| (n as u32 + i) as u8).collect(),
+                    TextureFormat::Rgba8Unorm,
+                    RenderAssetUsages::MAIN_WORLD | RenderAssetUsages::RENDER_WORLD,
+                );
+                let mut a = w.resource_mut::<Assets<Image>>();
+                match uuid {
+                    Some(u) => a.insert(AssetId::Uuid { uuid: u }, img),
+                    None => {
+                        let h = a.add(img).untyped();
+                        w.resource_mut::<KeepHandles>().0.push(h);
+                    }
+                }
+            }
+            AKind::Audio => {
+                let au = AudioSource { bytes: (0..(n % 40 + 1)).map(|i| (n + i) as u8).collect::<Vec<u8>>().into() };
+                let mut a = w.resource_mut::<Assets<AudioSource>>();
+                match uuid {
+                    Some(u) => a.insert(AssetId::Uuid { uuid: u }, au),
+                    None => {
+                        let h = a.add(au).untyped();
+                        w.resource_mut::<KeepHandles>().0.push(h);
+                    }
+                }
+            }
+            AKind::Material => {
+                let m = StandardMaterial { base_color: Color::srgb((n % 100) as f32 / 100.0, 0.5, 0.25), metallic: (n % 7) as f32, ..Default::default() };
+                let mut a = w.resource_mut::<Assets<StandardMaterial>>();
+                match uuid {
+                    Some(u) => a.insert(AssetId::Uuid { uuid: u }, m),
+                    None => {
+                        let h = a.add(m).untyped();
+                        w.resource_mut::<KeepHandles>().0.push(h);
+                    }
+                }
+            }
+        }
+        self.trace.push(json!({"ev":"op","op":"asset_insert","peer":peer,"kind":kind.name(),"uuid":uuid.map(|u| hex(u.as_bytes())),"n":n}));
+    }
+
     /// the application supplies the engine companions of some kinds itself (with recognisable values)
     pub fn add_companions(&mut self, peer: u32, h: u32, kinds: &[Ty]) -> bool {
         let Some(e) = self.local_entity(peer, h) else { return false };
@@ -872,6 +960,12 @@ impl Session {
                "server_transport": has_server_t, "client_transport": has_client_t,
                "client_connected": client_connected, "client_disconnected": client_disconnected,
                "server_clients": server_clients, "sync_finished": sync_finished})
+    }
+
+    pub fn describe_peers(&mut self) {
+        let v: Vec<Value> = self.peers.iter().map(|p| json!({"peer": p.id, "registered": p.cfg.registered.iter().map(|t| t.name()).collect::<Vec<_>>(),
+            "materials": p.cfg.materials, "meshes": p.cfg.meshes, "audios": p.cfg.audios})).collect();
+        self.trace.push(json!({"ev":"cfg","peers":v}));
     }
 
     pub fn emit(&self, w: &mut impl std::io::Write) {
